@@ -541,8 +541,11 @@ impl Check for C01Check {
     fn dual_mode(&self) -> bool {
         true
     }
+    fn modes(&self) -> Vec<&'static str> {
+        vec!["release", "relchk", "relovf"]
+    }
     fn rule(&self) -> String {
-        "scenario = (build mode, decoder family, seeded well-formed base traffic from the firmware models, one slice of the fault enumeration). Every scenario exists twice: index parity selects the harness binary built with overflow checks off (release) or on (relchk). Families: ADC v3 packets (unsuppressed, suppressed-kept, 16-byte form, BV channel, keep-bit) x {every truncation length, every single-bit flip, every byte x {00,01,7F,80,FF}, every aligned 16/32-bit field x boundary values in LE and BE, extensions} plus firmware-field faults with footer and baseline recomputed (requested_samples 0,1,2,n..n+3,511,65535; keep_last 0,1,33,34,..,4095 x keep/suppress bits; samples i16::MIN/MAX; sample counts 0,1,62..65); MCP chunks (same sweeps + CRC-valid header deviations); PWB v2 payloads (same sweeps, and CRC-valid delivery through the chunk path so faults reach the inner decoder); chunk lists (empty list, drop/dup/foreign/flag/size faults); TRG packets; Chronobox streams (flips, truncations, garbage); garbage datagrams 0..65 KiB into every byte decoder; all 4-character bank names over [0-9A-Z] (quick) / [0-9A-Za-z] (thorough) and all 1-4 (quick) / 1-5 (thorough) character strings over a 26-symbol alphabet with 2/3/4-byte UTF-8 characters (non-ASCII uppercase, lowercase, digits/numerics, symbols) into all 13 name/board parsers; exhaustive u8/u16/char and structured u32/[u8;6] id conversions. Oracle: the call returns (catch_unwind; worker watchdog; abort = worker death), and every accessor and Display of an accepted value returns. Non-trivial = at least one faulted input delivered; distinct = distinct event-log hashes (family, base bytes, accept counts).".into()
+        "scenario = (build mode, decoder family, seeded well-formed base traffic from the firmware models, one slice of the fault enumeration). Every scenario exists three times: index modulo 3 selects the harness binary built with overflow checks off (release), with overflow checks and debug assertions on (relchk, also -C target-cpu=native), or with overflow checks on and debug assertions off (relovf). Families: ADC v3 packets (unsuppressed, suppressed-kept, 16-byte form, BV channel, keep-bit) x {every truncation length, every single-bit flip, every byte x {00,01,7F,80,FF}, every aligned 16/32-bit field x boundary values in LE and BE, extensions} plus firmware-field faults with footer and baseline recomputed (requested_samples 0,1,2,n..n+3,511,65535; keep_last 0,1,33,34,..,4095 x keep/suppress bits; samples i16::MIN/MAX; sample counts 0,1,62..65); MCP chunks (same sweeps + CRC-valid header deviations); PWB v2 payloads (same sweeps, and CRC-valid delivery through the chunk path so faults reach the inner decoder); chunk lists (empty list, drop/dup/foreign/flag/size faults); TRG packets; Chronobox streams (flips, truncations, garbage); garbage datagrams 0..65 KiB into every byte decoder; all 4-character bank names over [0-9A-Z] (quick) / [0-9A-Za-z] (thorough) and all 1-4 (quick) / 1-5 (thorough) character strings over a 26-symbol alphabet with 2/3/4-byte UTF-8 characters (non-ASCII uppercase, lowercase, digits/numerics, symbols) into all 13 name/board parsers; exhaustive u8/u16/char and structured u32/[u8;6] id conversions. Oracle: the call returns (catch_unwind; worker watchdog; abort = worker death), and every accessor and Display of an accepted value returns. Non-trivial = at least one faulted input delivered; distinct = distinct event-log hashes (family, base bytes, accept counts).".into()
     }
     fn assumptions(&self) -> Vec<String> {
         vec![
@@ -554,18 +557,18 @@ impl Check for C01Check {
     fn components(&self) -> Value {
         json!({"real": ["every TryFrom<&[u8]> decoder of alpha_g_detector", "TryFrom<Vec<Chunk>>", "chronobox_fifo", "all *BankName / BoardId TryFrom<&str>", "id conversions", "accessors and Display impls"],
                "model": ["firmware encoders (ADC v3, MCP chunk + CRC-32C, PWB v2, TRG v3, Chronobox)", "datagram fault injector"],
-               "simulated": ["caller stack: the decoders run on a 2 MiB thread stack (std default)", "allocator limit: the processes run under a 4 GiB address-space limit, so a wild allocation fails (abort) instead of being over-committed"], "stub": [], "build_modes": ["release (overflow checks off)", "relchk (overflow checks + debug assertions on)"]})
+               "simulated": ["caller stack: the decoders run on a 2 MiB thread stack (std default)", "allocator limit: the processes run under a 4 GiB address-space limit, so a wild allocation fails (abort) instead of being over-committed"], "stub": [], "build_modes": ["release (overflow checks off)", "relchk (overflow checks + debug assertions on, target-cpu=native)", "relovf (overflow checks on, debug assertions off)"]})
     }
     fn count(&self, tier: Tier) -> u64 {
-        2 * match tier {
+        3 * match tier {
             Tier::Quick => 420,
             Tier::Thorough => 6000,
         }
     }
     fn generate(&self, seed: u64, index: u64, tier: Tier) -> Value {
-        let mode = if index % 2 == 1 { "relchk" } else { "release" };
-        let i = index / 2;
-        // both modes of a pair get the same seed
+        let mode = ["release", "relchk", "relovf"][(index % 3) as usize];
+        let i = index / 3;
+        // all modes of a triple get the same seed
         let _ = seed;
         let pair_seed = simcore::run_seed(simcore::driver::verif_seed(), "C01-pair", i);
         let (n_names, n_utf8, n_ids) = match tier {
@@ -692,10 +695,21 @@ fn decode_during_thread_teardown(chunk_list: Vec<Vec<u8>>, adc: Vec<u8>, trg: Ve
 
 fn run_on_caller_stack(scenario: &Value, stats: &mut Stats) -> Outcome {
         let scn: Scn = serde_json::from_value(scenario.clone()).expect("C01 scenario");
-        let have_checks = cfg!(debug_assertions);
-        if (scn.mode == "relchk") != have_checks {
+        // which build is this? debug assertions from the cfg; overflow checks observed (an
+        // addition that overflows panics exactly when they are compiled in)
+        let have_asserts = cfg!(debug_assertions);
+        static HAVE_OVF: std::sync::OnceLock<bool> = std::sync::OnceLock::new();
+        #[allow(arithmetic_overflow)]
+        let have_ovf = *HAVE_OVF.get_or_init(|| simcore::driver::catch(|| std::hint::black_box(u8::MAX) + std::hint::black_box(1u8)).is_err());
+        let built = match (have_ovf, have_asserts) {
+            (false, false) => "release",
+            (true, true) => "relchk",
+            (true, false) => "relovf",
+            (false, true) => "?",
+        };
+        if scn.mode != built {
             // executed by the wrong binary: harness error rather than a silent pass
-            panic!("C01 scenario of mode {} executed by a {} build", scn.mode, if have_checks { "relchk" } else { "release" });
+            panic!("C01 scenario of mode {} executed by a {} build", scn.mode, built);
         }
         stats.probe(&format!("mode:{}", scn.mode));
         let mut cx = Cx { scn: &scn, stats, viol: vec![], calls: 0, oks: 0, stop: false };
